@@ -260,5 +260,9 @@ def r4(repo, chk):
     chk.ob("R4", "an issued ID stays accepted until the peer retires it (no other removal from _host_cids)", not other, f"{other}", "")
     rd = Fn(repo, CONN + "receive_datagram")
     loops = [l for l in rd.stmts(lambda s: isinstance(s, ast.For)) if norm(l.iter) == "self._host_cids"]
-    ok = any(any(isinstance(n, ast.Compare) and norm(n) == f"header.destination_cid == {norm(l.target)}.cid" for n in ast.walk(l)) for l in loops)
+    ok = any(any(isinstance(n, ast.Compare) and natom(norm(n)) == natom(f"header.destination_cid == {norm(l.target)}.cid") for n in ast.walk(l)) for l in loops)
+    # the same search written as a generator / comprehension over the issued IDs
+    for g in rd.nodes(ast.comprehension):
+        if norm(g.iter) == "self._host_cids" and isinstance(g.target, ast.Name) and [natom(norm(i)) for i in g.ifs] == [natom(f"header.destination_cid == {g.target.id}.cid")]:
+            ok = True
     chk.ob("R4", "receive_datagram accepts packets addressed to any issued, unretired ID", ok, "", rd.loc(rd.node))
